@@ -21,6 +21,7 @@ RULE = (
     "condition and both observed and unobserved plates. distinct = distinct case JSON."
     ' In half the cases the generator handed over is a PCG64 whose stream repeats words at drawn positions (vf.randomctl.StutterGenerator).'
     ' The fraction is, in a quarter of the cases, an exact number object (Fraction, Decimal, int) with the exact ceiling as reference.'
+    ' One case in six relabels every plate with an embedded NUL character (batch\\x00<name>).'
 )
 ASSUMPTIONS = [
     "ceil(size*fraction) is evaluated in float arithmetic as documented (20*0.15 -> 4)",
@@ -55,6 +56,7 @@ def _case(draw):
         "seed": draw(st.integers(0, 2**32 - 1)),
         "stutter": draw(randomctl.stutter_patterns()),  # a generator whose consecutive draws sometimes coincide
         "clash_names": draw(st.integers(0, 3)) == 0,
+        "nul_plates": draw(st.integers(0, 5)) == 0,
         "fraction": draw(st.one_of(st.sampled_from([0.0, 1.0, 0.1, 0.15, 0.5]), st.floats(min_value=0, max_value=1))),
         "fraction_exact": draw(st.sampled_from([None, None, None, ["Fraction", 7, 25], ["Fraction", 1, 3], ["Fraction", 1, 5], ["Fraction", 3, 10], ["Decimal", "0.28"], ["Decimal", "0.1"], ["Decimal", "0.2"], ["Decimal", "1e-400"], ["Fraction", 1, 10**30], ["Decimal", "0.6"], ["int", 1], ["int", 0]])),
     }
@@ -91,6 +93,11 @@ def check_case(case):
         # revealed and is prepared again)
         ren_ = {p_: "generated_plate_%d" % i_ for i_, p_ in enumerate(sorted(sc["observed"]))}
         sc = dict(sc, rows=[dict(r, p=ren_.get(r["p"], r["p"])) for r in sc["rows"]], observed=sorted(ren_.values()))
+    if case.get("nul_plates"):
+        # plate labels that agree up to an embedded NUL character (barcodes with a separator byte): different labels all the same -
+        # nothing here is written to an archive, so any unicode string is a legal label
+        ren_ = {p_: "batch\x00" + p_ for p_ in {r["p"] for r in sc["rows"]}}
+        sc = dict(sc, rows=[dict(r, p=ren_[r["p"]]) for r in sc["rows"]], observed=sorted(ren_[p_] for p_ in sc["observed"]))
     labels = []
     counts = collections.Counter()
     for op in case["ops"]:
